@@ -18,6 +18,10 @@ import (
 	"google.golang.org/grpc/credentials/insecure"
 	lstatus "github.com/cockroachdb/errors/grpc/status"
 	grpcstatus "google.golang.org/grpc/status"
+	"google.golang.org/grpc/health/grpc_health_v1"
+	proto "github.com/golang/protobuf/proto"
+	"google.golang.org/protobuf/types/known/durationpb"
+	"reflect"
 
 	"verifharness/core"
 	"verifharness/gen"
@@ -113,6 +117,9 @@ func runC20(c *core.Ctx) {
 	}
 	if c.Case == 0 {
 		c20passthrough(c)
+	}
+	if c.Case%64 == 1 {
+		c20statusWithDetails(c)
 	}
 	g := gen.New(c.R)
 	t := caseTree(c, g, 7)
@@ -295,4 +302,63 @@ func c20passthrough(c *core.Ctx) {
 		c.Violate("nil-passthrough", "a nil handler error does not pass through the interceptors", fmt.Sprint(rep, err))
 	}
 	c.Count("nil-passthrough", 1)
+}
+
+// c20statusWithDetails: a handler error that already is a gRPC status error and carries details of
+// its own — message types the intercepting client may not be able to unmarshal (not in the gogo
+// registry), and no encoded error among them — passes through the interceptors unchanged: what the
+// intercepting client returns is, like what a plain client returns, a status error with the same
+// code, message and details.
+func c20statusWithDetails(c *core.Ctx) {
+	key := "status-details-" + strconv.Itoa(c.Case)
+	code := codes.Code(1 + c.R.Intn(16))
+	msg := "status with details zq" + strconv.Itoa(c.Case) + "qz"
+	var details []proto.Message
+	switch c.R.Intn(3) {
+	case 0:
+		details = []proto.Message{&grpc_health_v1.HealthCheckResponse{Status: grpc_health_v1.HealthCheckResponse_NOT_SERVING}}
+	case 1:
+		details = []proto.Message{durationpb.New(3 * time.Second)}
+	default:
+		details = []proto.Message{durationpb.New(time.Minute), &grpc_health_v1.HealthCheckRequest{Service: "svc"}}
+	}
+	var e error
+	if p := core.Try(func() {
+		st := grpcstatus.New(code, msg)
+		withD, err := st.WithDetails(details...)
+		if err != nil {
+			panic(err)
+		}
+		e = withD.Err()
+	}); p != nil {
+		c.Inconclusive(fmt.Sprintf("cannot build a status error with details: %v", p))
+		return
+	}
+	c20srv.mu.Lock()
+	c20srv.errs[key] = e
+	c20srv.mu.Unlock()
+	defer func() { c20srv.mu.Lock(); delete(c20srv.errs, key); c20srv.mu.Unlock() }()
+	ctx, cancel := context.WithTimeout(context.Background(), 120*time.Second)
+	defer cancel()
+	_, got := c20client.Echo(ctx, &egrpc.EchoRequest{Text: key})
+	_, raw := c20raw.Echo(ctx, &egrpc.EchoRequest{Text: key})
+	if ctx.Err() != nil {
+		c.Inconclusive("RPC watchdog deadline hit")
+		return
+	}
+	c.Count("status-with-own-details-rpcs", 2)
+	if got == nil || raw == nil {
+		c.Violate("status-details/nil", "a status error with details arrives as nil", msg)
+		return
+	}
+	gs, ok1 := grpcstatus.FromError(got)
+	rs, ok2 := grpcstatus.FromError(raw)
+	if !ok2 || rs.Code() != code || rs.Message() != msg || len(rs.Proto().GetDetails()) != len(details) {
+		c.Violate("status-details/plain-client", "a status error with details does not reach a plain client unchanged", fmt.Sprintf("%v", raw))
+		return
+	}
+	if !ok1 || reflect.TypeOf(got) != reflect.TypeOf(raw) || !proto.Equal(gs.Proto(), rs.Proto()) || got.Error() != raw.Error() {
+		c.Violate("status-details/intercepting-client", "a status error with details of its own does not pass through the client interceptor unchanged",
+			fmt.Sprintf("plain client: %T %v\nintercepting client: %T %v", raw, raw, got, got))
+	}
 }
